@@ -137,6 +137,7 @@ type tcpConnRec struct {
 	calls    []string
 	closed   chan struct{}
 	closedAt time.Time
+	openedAt time.Time // when the serve loop handed the connection to the handler (server side, same clock as closedAt)
 	status   string
 	data     metrics.ProxyMetrics
 }
@@ -338,7 +339,13 @@ func tcpCase(r *Rng, e *netEnv, tg *tcpTargets, out *Out) {
 	go func() {
 		service.StreamServe(service.WrapStreamAcceptFunc(ln.AcceptTCP), func(ctx context.Context, c transport.StreamConn) {
 			port := c.RemoteAddr().(*net.TCPAddr).Port
-			h.Handle(ctx, c, getRec(port))
+			r := getRec(port)
+			r.mu.Lock()
+			if r.openedAt.IsZero() {
+				r.openedAt = time.Now()
+			}
+			r.mu.Unlock()
+			h.Handle(ctx, c, r)
 		})
 		close(served)
 	}()
@@ -625,6 +632,11 @@ func tcpCase(r *Rng, e *netEnv, tg *tcpTargets, out *Out) {
 		o.status, o.data = rec.status, rec.data
 		if !rec.closedAt.IsZero() {
 			o.closeAt = rec.closedAt.Sub(o.start) // when the handler finished (it closes the connection next)
+			if !rec.openedAt.IsZero() {
+				// both ends of the interval taken on the server side: a client goroutine that was scheduled late after
+				// its connect (busy machine) must not make a close at the deadline look early
+				o.closeAt = rec.closedAt.Sub(rec.openedAt)
+			}
 		}
 		rec.mu.Unlock()
 		return o
